@@ -349,7 +349,8 @@ def rule_all_versions_kept(ctx):
     # bundles and lists are unpacked recursively
     rec = [c for c in body_walk(ad.node) if isinstance(c, ast.Call) and call_simple_name(c) == "_add"]
     sd = ad.params[1]
-    okb = len(rec) == 2 and "isinstance(%s, list)" % sd in t and "%s['type'] == 'bundle'" % sd in t and "%s.get('objects', [])" % sd in t
+    okb = len(rec) == 2 and "isinstance(%s, list)" % sd in t and ("%s['type'] == 'bundle'" % sd in t or "%s.get('type') == 'bundle'" % sd in t) \
+        and "%s.get('objects', [])" % sd in t
     run.check(okb, R, key(ad.module.relpath, ad.qualname, "unpacks-lists-and-bundles"), "lists / bundles are not unpacked member by member",
               file=ad.module.relpath, line=ad.node.lineno, function=ad.qualname, expected="recursive _add for list items and bundle objects",
               found=[short(c) for c in rec])
